@@ -36,14 +36,18 @@ Pinned(s) == ~ \E i \in 1..Len(s) :
                  \/ TK(s, i) \in {".", "!."} /\ TK(s, i + 1) \in {"Kw", "typeof"}
                  \/ TK(s, i) = "(" /\ TK(s, i + 1) = "..."
 
-VARIABLES s, e, pin
-vars == <<s, e, pin>>
+VARIABLES s, e, pin, spans
+vars == <<s, e, pin, spans>>
 
-Init == s = <<>> /\ e = ParseTokens(<<>>) /\ pin = TRUE
+\* token spans <<path, kind, first, last>> of every node of an accepted tree (C15)
+SpansOf(p) == IF p[1] = "OK" THEN Spans(p[2], 1, <<>>) ELSE <<>>
+
+Init == s = <<>> /\ e = ParseTokens(<<>>) /\ pin = TRUE /\ spans = <<>>
 Next == /\ Len(s) < K
         /\ \E t \in Alphabet : s' = Append(s, t)
         /\ e' = ParseTokens(s')
         /\ pin' = Pinned(s')
+        /\ spans' = SpansOf(e')
 Spec == Init /\ [][Next]_vars
 
 GrammarSound == Sound(s, e)
@@ -57,4 +61,26 @@ NewlineOnlyMatters ==
   \A i \in 1..Len(s) :
      (s[i][3] /\ s[i][1] \notin {".", "!.", "("}) =>
         ParseTokens([s EXCEPT ![i] = <<s[i][1], s[i][2], FALSE>>]) = e
+\* C15 on the specification: ranges nest (a child's token span lies inside its parent's, siblings in
+\* source order) and the tokens of every expression node parse on their own to that subtree
+RECURSIVE SubAt(_, _)
+SubAt(t, path) ==
+  IF path = <<>> THEN t
+  ELSE LET i == path[1]  rest == Tail(path) IN
+       CASE t[1] = "Paren" -> SubAt(t[2], rest)
+         [] t[1] = "Arr" -> SubAt(t[2][i], rest)
+         [] t[1] = "Sel" -> SubAt(t[2], rest)
+         [] t[1] = "Call" -> IF i = 0 THEN SubAt(t[2], rest) ELSE SubAt(t[3][i], rest)
+         [] t[1] = "Pre" -> SubAt(t[3], rest)
+         [] t[1] = "Typeof" -> SubAt(t[2], rest)
+         [] t[1] = "Cond" -> SubAt(t[i + 1], rest)
+         [] t[1] = "Bin" -> SubAt(t[i + 2], rest)
+IsPrefixPath(a, b) == Len(a) <= Len(b) /\ SubSeq(b, 1, Len(a)) = a
+RangesNest ==
+  \A i \in 1..Len(spans), j \in 1..Len(spans) :
+     (i # j /\ IsPrefixPath(spans[i][1], spans[j][1])) => (spans[i][3] <= spans[j][3] /\ spans[j][4] <= spans[i][4])
+SubtextReparses ==
+  \A i \in 1..Len(spans) :
+     LET sub == [j \in 1..(spans[i][4] - spans[i][3] + 1) |-> <<s[spans[i][3] + j - 1][1], s[spans[i][3] + j - 1][2], FALSE>>] IN
+     ParseTokens(sub) = <<"OK", SubAt(e[2], spans[i][1])>>
 =============================================================================
